@@ -409,7 +409,7 @@ impl Engine for UpgradeEngine {
 
     fn jobs(&self, tier: Tier) -> u64 {
         match tier {
-            Tier::Quick => 96,
+            Tier::Quick => 320,
             Tier::Thorough => 8000,
         }
     }
